@@ -10,7 +10,7 @@
 (* satisfies the contract.  Checked by `tlapm` in the thorough tier of     *)
 (* C05 / C06 / C09 / C11 (bin/checks_ops.py: prove_laws).                  *)
 (***************************************************************************)
-EXTENDS TLAPS
+
 
 Int(a, b) == a \cap b
 Union(a, b) == a \cup b
